@@ -970,3 +970,289 @@ Proof.
 Qed.
 
 End ParseBack.
+
+(** ** Step 4: encoding the tree, and the whole round trip *)
+
+From Verif Require Import Jsonx.Json Jsonx.Encode Jsonx.Term Jsonx.JsonProofs.
+
+(** The JSON value of the printer's input. *)
+Fixpoint jv (v : pvalue) : jvalue :=
+  match v with
+  | PNull => JNull
+  | PBool b => JBool b
+  | PNum t => JNum t
+  | PStr s => JStr s
+  | PArr l => JArr (map jv l)
+  | PObj l => JObj (sort_keys (map (fun kv => let '(k, x) := kv in (k, jv x)) l))
+  end.
+
+Lemma jv_obj l : jv (PObj l) = JObj (map (fun kv : list N * pvalue => (fst kv, jv (snd kv))) (sort_keys l)).
+Proof.
+  cbn [jv]. f_equal.
+  replace (map (fun kv : list N * pvalue => let '(k, x) := kv in (k, jv x)) l)
+    with (map (fun kv : list N * pvalue => (fst kv, jv (snd kv))) l)
+    by (apply map_ext; intros [k x]; reflexivity).
+  apply (sort_keys_map jv).
+Qed.
+
+Section RoundTrip.
+Context {F : Type}.
+Variable pf : list N -> option F.
+Variable ff : F -> list N.
+Variable is_print : N -> bool.
+Hypothesis newline_not_printable : is_print 10 = false.
+Hypothesis ff_json : forall f, is_json_number (ff f) = true.
+Hypothesis ff_unsigned : forall f r, ff f <> 45 :: r.
+
+(** JSON equality up to the spelling of floats: a float literal [u] may come
+    back as [ff f] where [f] is the float64 that [u] reads as. *)
+Definition num_rel (a b : list N) : Prop :=
+  a = b \/
+  exists sg u f, (sg = [] \/ sg = [45]) /\ a = sg ++ u /\ pf u = Some f /\ b = sg ++ ff f.
+
+Inductive jrel : jvalue -> jvalue -> Prop :=
+| JR_null : jrel JNull JNull
+| JR_bool b : jrel (JBool b) (JBool b)
+| JR_num a b : num_rel a b -> jrel (JNum a) (JNum b)
+| JR_str s : jrel (JStr s) (JStr s)
+| JR_arr l l' : Forall2 jrel l l' -> jrel (JArr l) (JArr l')
+| JR_obj l l' : Forall2 (fun m m' => fst m = fst m' /\ jrel (snd m) (snd m')) l l' ->
+                jrel (JObj l) (JObj l').
+
+Lemma join_opt_all sep : forall l : list (option (list N)),
+  Forall (fun o => o <> None) l -> exists b, join_opt sep l = Some b.
+Proof.
+  induction l as [|x l IH]; intros H; [now exists []|].
+  inversion H as [|? ? Hx Hl]; subst. destruct x as [a|]; [|contradiction].
+  destruct (IH Hl) as [b Hb]. destruct l as [|y l'].
+  - now exists a.
+  - cbn [join_opt]. change (join_opt sep (y :: l')) with (join_opt sep (y :: l')) in Hb.
+    cbn [join_opt] in Hb. rewrite Hb. eauto.
+Qed.
+
+Lemma mk_num_ok lead u :
+  (lead = None \/ lead = Some [45]) ->
+  nscan NNeg u = Some (u, []) ->
+  (if num_is_float u then match pf u with Some _ => true | None => false end else true) = true ->
+  encode_value ff (mk_num pf lead u) <> None /\
+  jrel (JNum (sign_of lead ++ u)) (denote ff (mk_num pf lead u)).
+Proof.
+  intros Hlead Hu Hok. unfold mk_num.
+  destruct (unsigned_json_number_parts u Hu) as (ip & fp & ep & Eu & Hi & Hf & He).
+  pose proof (num_is_float_parts ip fp ep Hi Hf He) as Hfl. rewrite <- Eu in Hfl.
+  destruct (num_is_float u) eqn:Enf.
+  - destruct (pf u) as [f|] eqn:Ep; [|discriminate]. split; [cbn; discriminate|].
+    cbn [denote encode_float]. constructor. right.
+    exists (sign_of lead), u, f. repeat split; auto.
+    destruct Hlead as [->| ->]; [now left|now right].
+  - (* integer: fp = ep = [] and the literal is canonical *)
+    assert (fp = [] /\ ep = []) as [-> ->].
+    { symmetry in Hfl. unfold is_float_lit in Hfl. destruct fp; [destruct ep; [auto|discriminate]|discriminate]. }
+    rewrite !app_nil_r in Eu. subst u.
+    pose proof (int_json_canonical ip Hi) as Hc. unfold int_json in Hc.
+    destruct (int_value ip) as [n|] eqn:Ev; [|discriminate]. cbn [option_map] in Hc.
+    injection Hc as Hc. split.
+    + cbn [encode_value]. unfold int_json. rewrite Ev. cbn. discriminate.
+    + cbn [denote]. rewrite Ev, Hc. constructor. now left.
+Qed.
+
+Lemma num_ast_ok t : is_json_number t = true -> num_okb pf t = true ->
+  encode_value ff (num_ast pf t) <> None /\ jrel (JNum t) (denote ff (num_ast pf t)).
+Proof.
+  intros Ht Hok. destruct (nscan_start_cases is_print t Ht) as [(u & -> & Hu)|[Hn Hu]].
+  - cbn [num_ast]. apply (mk_num_ok (Some [45]) u); auto.
+  - assert (E : num_ast pf t = mk_num pf None t).
+    { unfold num_ast. destruct t as [|c r]; [reflexivity|].
+      destruct c as [|p]; [reflexivity|].
+      repeat (destruct p as [p|p|]; try reflexivity). exfalso. now apply (Hn r). }
+    assert (Hok' : (if num_is_float t then match pf t with Some _ => true | None => false end
+                    else true) = true).
+    { unfold num_okb in Hok. destruct t as [|c r]; [exact Hok|].
+      destruct c as [|p]; [exact Hok|].
+      repeat (destruct p as [p|p|]; try exact Hok). exfalso. now apply (Hn r). }
+    rewrite E. apply (mk_num_ok None t); auto.
+Qed.
+
+Lemma valid_runes_roundtrip rs : forallb valid_rune rs = true ->
+  utf8_decode (utf8_encode rs) = rs.
+Proof. apply decode_encode. Qed.
+
+(** The tree of a printed value is encodable, and denotes the value. *)
+Theorem ast_denotes : forall v, wfpb v = true -> fokb pf v = true ->
+  encode_value ff (ast pf is_print v) <> None /\
+  jrel (jv v) (denote ff (ast pf is_print v)).
+Proof.
+  induction v as [|b|t|rs|vs IH|ms IH] using pvalue_ind'; intros Hw Hf.
+  - split; [cbn; discriminate|constructor].
+  - split; [cbn; discriminate|constructor].
+  - cbn [wfpb fokb ast jv] in *. now apply num_ast_ok.
+  - cbn [wfpb ast jv denote] in *. split; [cbn; discriminate|].
+    rewrite (valid_runes_roundtrip rs Hw). constructor.
+  - (* array *)
+    cbn [wfpb fokb ast jv denote encode_value] in *.
+    assert (H : Forall (fun x => encode_value ff (ast pf is_print x) <> None /\
+                                 jrel (jv x) (denote ff (ast pf is_print x))) vs).
+    { clear -IH Hw Hf. induction IH as [|x xs Hx Hxs IHxs]; [constructor|].
+      cbn [forallb] in *. apply andb_true_iff in Hw as [? ?]. apply andb_true_iff in Hf as [? ?].
+      constructor; auto. }
+    split.
+    + destruct (join_opt_all [44] (map (encode_value ff) (map (ast pf is_print) vs))) as [b Hb].
+      { rewrite map_map. apply Forall_map. eapply Forall_impl; [|exact H]. now intros x [Hx _]. }
+      rewrite Hb. discriminate.
+    + constructor. rewrite map_map. clear -H.
+      induction H as [|x xs [_ Hx] Hxs IHxs]; cbn [map]; constructor; auto.
+  - (* object *)
+    cbn [wfpb fokb] in *. rewrite ast_obj, jv_obj. cbv zeta.
+    set (bare := forallb (fun kv => is_ident_key (fst kv)) ms).
+    apply forallb_sort_keys in Hw. apply forallb_sort_keys in Hf. apply Forall_sort_keys in IH.
+    clearbody bare. remember (sort_keys ms) as sm eqn:Esm. clear Esm.
+    assert (H : Forall (fun kv : list N * pvalue =>
+                          forallb valid_rune (fst kv) = true /\
+                          encode_value ff (ast pf is_print (snd kv)) <> None /\
+                          jrel (jv (snd kv)) (denote ff (ast pf is_print (snd kv)))) sm).
+    { clear -IH Hw Hf. induction IH as [|[k x] xs Hx Hxs IHxs]; [constructor|].
+      cbn [forallb fst snd] in *. apply andb_true_iff in Hw as [Hk Hws]. apply andb_true_iff in Hk as [Hk Hwx].
+      apply andb_true_iff in Hf as [Hfx Hfs]. constructor; [|now apply IHxs].
+      cbn [fst snd]. destruct (Hx Hwx Hfx) as [A B]. auto. }
+    cbn [encode_value denote]. split.
+    + destruct (join_opt_all [44]
+        (map (fun kv : okey * value => let '(k, x) := kv in
+                option_map (fun t => encode_key k ++ 58 :: t) (encode_value ff x))
+             (map (fun kv : list N * pvalue => (key_ast is_print bare (fst kv), ast pf is_print (snd kv))) sm)))
+        as [b Hb].
+      { rewrite map_map. apply Forall_map. eapply Forall_impl; [|exact H].
+        intros [k x] (_ & Hx & _). cbn [fst snd] in *.
+        destruct (encode_value ff (ast pf is_print x)); [discriminate|contradiction]. }
+      rewrite Hb. discriminate.
+    + constructor. rewrite map_map. clear -H.
+      induction H as [|[k x] xs (Hk & _ & Hx) Hxs IHxs]; cbn [map]; constructor; auto.
+      cbn [fst snd] in *. split; [|exact Hx].
+      unfold key_ast. destruct bare; cbn [denote_key]; now rewrite (valid_runes_roundtrip k Hk).
+Qed.
+
+(** Tokens of a printed value carry no lexing error and are not comments. *)
+Lemma with_cum_clean : forall raw rest acc,
+  Forall (fun te : token * list ecode => snd te = []) raw ->
+  with_cum acc (raw ++ rest)
+  = (map (pt acc) raw ++ fst (with_cum acc rest), snd (with_cum acc rest)).
+Proof.
+  induction raw as [|[t e] raw IH]; intros rest acc H; cbn [app map].
+  - now destruct (with_cum acc rest).
+  - inversion H as [|? ? He Hr]; subst. cbn [snd] in He. subst e.
+    cbn [with_cum]. change (add_errs acc []) with acc.
+    rewrite (IH rest acc Hr). destruct (with_cum acc rest). reflexivity.
+Qed.
+
+Lemma rt_clean : forall v, Forall (fun te : token * list ecode => snd te = []) (rt is_print v).
+Proof.
+  induction v as [|b|t|rs|vs IH|ms IH] using pvalue_ind'.
+  - repeat constructor.
+  - repeat constructor.
+  - cbn [rt]. unfold num_toks. destruct t as [|c r]; [repeat constructor|].
+    destruct c as [|p]; [repeat constructor|].
+    repeat (destruct p as [p|p|]; try (repeat constructor)).
+  - repeat constructor.
+  - destruct vs as [|v0 vs']; [repeat constructor|].
+    change (rt is_print (PArr (v0 :: vs'))) with
+      (tk TOperator [91] :: tk TEndl [10]
+         :: flat_map (fun x => rt is_print x ++ [tk TOperator [44]; tk TEndl [10]]) (v0 :: vs')
+         ++ [tk TOperator [93]]).
+    constructor; [reflexivity|]. constructor; [reflexivity|]. apply Forall_app. split; [|repeat constructor].
+    induction IH as [|x xs Hx Hxs IHxs]; [constructor|]. cbn [flat_map].
+    apply Forall_app. split; [apply Forall_app; split; [exact Hx|repeat constructor]|exact IHxs].
+  - destruct ms as [|m0 ms']; [repeat constructor|].
+    rewrite (rt_obj is_print (m0 :: ms') ltac:(discriminate)). cbv zeta.
+    apply Forall_sort_keys in IH. generalize dependent (sort_keys (m0 :: ms')). intros sm IH.
+    constructor; [reflexivity|]. constructor; [reflexivity|]. apply Forall_app. split; [|repeat constructor].
+    induction IH as [|[k x] xs Hx Hxs IHxs]; [constructor|]. cbn [flat_map fst snd] in *.
+    constructor; [unfold key_tok; destruct (forallb _ _); reflexivity|].
+    constructor; [reflexivity|].
+    apply Forall_app. split; [apply Forall_app; split; [exact Hx|repeat constructor]|exact IHxs].
+Qed.
+
+Lemma ft_not_comment : forall v,
+  Forall (fun tl : ttype * list N => fst tl <> TComment) (ft is_print v).
+Proof.
+  induction v as [|b|t|rs|vs IH|ms IH] using pvalue_ind'.
+  - repeat constructor; discriminate.
+  - repeat constructor; discriminate.
+  - cbn [ft]. unfold num_ft. destruct t as [|c r].
+    + constructor; [|constructor]. cbn [fst]. destruct (num_is_float []); discriminate.
+    + destruct (N.eqb_spec c 45) as [->|Hc].
+      * constructor; [discriminate|]. constructor; [|constructor]. cbn [fst]. destruct (num_is_float r); discriminate.
+      * fold (num_ft (c :: r)). rewrite (num_ft_other c r Hc).
+        constructor; [|constructor]. cbn [fst]. destruct (num_is_float (c :: r)); discriminate.
+  - repeat constructor; discriminate.
+  - destruct vs as [|v0 vs']; [repeat constructor; discriminate|].
+    change (ft is_print (PArr (v0 :: vs'))) with
+      ((TOperator, [91]) :: flat_map (fun x => ft is_print x ++ [(TOperator, [44])]) (v0 :: vs')
+         ++ [(TOperator, [93])]).
+    constructor; [discriminate|]. apply Forall_app. split; [|repeat constructor; discriminate].
+    induction IH as [|x xs Hx Hxs IHxs]; [constructor|]. cbn [flat_map].
+    apply Forall_app. split; [apply Forall_app; split; [exact Hx|repeat constructor; discriminate]|exact IHxs].
+  - destruct ms as [|m0 ms']; [repeat constructor; discriminate|].
+    rewrite (ft_obj is_print (m0 :: ms') ltac:(discriminate)). cbv zeta.
+    apply Forall_sort_keys in IH. generalize dependent (sort_keys (m0 :: ms')). intros sm IH.
+    constructor; [discriminate|]. apply Forall_app. split; [|repeat constructor; discriminate].
+    induction IH as [|[k x] xs Hx Hxs IHxs]; [constructor|]. cbn [flat_map fst snd] in *.
+    constructor; [unfold key_ft; match goal with |- fst (if ?b then _ else _) <> _ => destruct b end;
+                  discriminate|].
+    constructor; [discriminate|].
+    apply Forall_app. split; [apply Forall_app; split; [exact Hx|repeat constructor; discriminate]|exact IHxs].
+Qed.
+
+Lemma filter_not_comment_mk l :
+  Forall (fun tl : ttype * list N => fst tl <> TComment) l ->
+  filter not_comment (map (mkp []) l) = map (mkp []) l.
+Proof.
+  induction 1 as [|[ty lit] l Hx Hl IH]; [reflexivity|]. cbn [map filter].
+  unfold not_comment at 1. cbn [mkp pty fst snd] in *.
+  destruct ty; try (cbn [ttype_eqb negb]; now rewrite IH); contradiction.
+Qed.
+
+(** The parser's token stream for a printed document. *)
+Lemma printed_stream v : wfpb v = true ->
+  jsonx_stream (print_doc is_print v)
+  = Ok (mkS (map (mkp []) (ft is_print v) ++ [mkP TSemi [10] []]) []).
+Proof.
+  intros Hw. unfold jsonx_stream, print_doc.
+  assert (HL : L (print_value is_print 0 v ++ [10]) (rt is_print v ++ [tk TEndl [10]])).
+  { apply (print_lexes is_print newline_not_printable v Hw 0 [10] [tk TEndl [10]]).
+    - eexists. right. reflexivity.
+    - apply L_endl, L_nil. }
+  rewrite (L_raw _ _ HL). f_equal. unfold parser_stream, filtered.
+  rewrite (with_cum_clean (rt is_print v) [tk TEndl [10]] [] (rt_clean v)).
+  change (with_cum [] [tk TEndl [10]]) with ([mkP TEndl [10] []], @nil ecode). cbn [fst snd].
+  rewrite (F2_filters is_print [] [] v false [mkP TEndl [10] []]).
+  cbn [semi_ins pty map keyword_tok pcum]. rewrite filter_app.
+  rewrite (filter_not_comment_mk _ (ft_not_comment v)). reflexivity.
+Qed.
+
+Theorem roundtrip v :
+  wfpb v = true -> fokb pf v = true ->
+  exists out j',
+    unmarshal pf ff (print_doc is_print v) = Ok (UOk out) /\
+    json_parse out = Some j' /\ jrel (jv v) j'.
+Proof.
+  intros Hw Hf. destruct (ast_denotes v Hw Hf) as [Henc Hrel].
+  destruct (encode_value ff (ast pf is_print v)) as [out|] eqn:Eenc; [|contradiction].
+  pose proof (encode_json_parse ff ff_json ff_unsigned _ _ Eenc) as Hjp.
+  exists out, (denote ff (ast pf is_print v)). split; [|split; [exact Hjp|exact Hrel]].
+  unfold unmarshal. rewrite (printed_stream v Hw). unfold unmarshal_stream.
+  set (s := mkS (map (mkp []) (ft is_print v) ++ [mkP TSemi [10] []]) []).
+  assert (Hinit : p_init s = st_at [] (map (mkp []) (ft is_print v) ++ [mkP TSemi [10] []])).
+  { unfold p_init, s. cbn [sbody sfin].
+    destruct (ft_head is_print v) as (t & r & -> & _). reflexivity. }
+  rewrite Hinit.
+  destruct (parse_printed pf is_print newline_not_printable [] v Hw Hf [mkP TSemi [10] []]) as [f E].
+  set (st := st_at [] (map (mkp []) (ft is_print v) ++ [mkP TSemi [10] []])) in *.
+  destruct (parse_value_fuel_suffices pf st) as (v' & st' & E').
+  assert (Eq : parse_value pf (parse_fuel st) st = Some (ast pf is_print v, st_at [] [mkP TSemi [10] []])).
+  { pose proof (parse_value_mono pf f (max f (parse_fuel st)) _ _ (Nat.le_max_l _ _) E) as M1.
+    pose proof (parse_value_mono pf (parse_fuel st) (max f (parse_fuel st)) _ _ (Nat.le_max_r _ _) E') as M2.
+    congruence. }
+  rewrite Eq. cbn [st_at p_errs cur pcum perrs]. unfold marshal_value. rewrite Eenc.
+  unfold json_valid. rewrite Hjp. reflexivity.
+Qed.
+
+End RoundTrip.
